@@ -18,7 +18,7 @@ def gen(tier, rng, shard, nshards):
                "start": S.pick(rng, ["given", "given", "given", "default", "batched"]),
                "m": S.pick(rng, ["1", "2", "n//2", "n-1", "n", "n+3", "n+10", "default"]),
                "tol": float(S.pick(rng, [1e-12, 1e-12, 1e-8, 1e-5])), "fn": S.pick(rng, ["arnoldi", "arnoldi", "arnoldi", "arnoldi_eigs", "Arnoldi()"]),
-               "real_start": bool(rng.random() < 0.3)}
+               "real_start": bool(rng.random() < 0.3), "wide_start": bool(rng.random() < 0.25)}
 
 
 def min_rel_residual(M, v, m):
@@ -130,6 +130,9 @@ def run_case(ctx, case):
         if cplx and case.get("real_start") and case["rhs"] == "generic":
             v = np.ascontiguousarray(v.real)  # a real start vector for a complex operator (narrower dtype than the operator)
             preds["start_narrower_than_operator"] = True
+        if not cplx and case.get("wide_start") and case["rhs"] == "generic":
+            v = (v + 1j * rng.standard_normal(v.shape)).astype(np.complex128)  # a complex start vector for a real operator
+            preds["start_wider_than_operator"] = True
         kw["start_vector"] = v
     if case["fn"] == "arnoldi_eigs" and case["start"] != "batched":
         out = ctx.call(arnoldi_eigs, A, **kw)
